@@ -877,10 +877,14 @@ func (q *aworld) drain() {
 		}
 	}
 	sort.Strings(ended)
-	for _, k := range ended {
+	for _, entry := range ended {
+		k, tag, _ := strings.Cut(entry, " ")
 		q.r.Probe("port_call_context_ended:" + k)
+		if q.endedByScheduler(tag) {
+			continue // the harness itself ended this item's caller context (fault item_context_cancelled)
+		}
 		if q.r.Property == "C41" && !q.stopDone {
-			q.violate("work-cancelled", "the context of a parked %s port call ended before the drain finished: admitted work was cancelled", k)
+			q.violate("work-cancelled", "the context of a parked %s port call (%s) ended before the drain finished: admitted work was cancelled", k, tag)
 		}
 	}
 	q.flushViolations()
@@ -1116,6 +1120,17 @@ func (q *aworld) observeOp(o *op) {
 			q.r.Probe("order.checked_items")
 		}
 	}
+}
+
+// endedByScheduler reports whether tag ("opN.i") names an item whose caller
+// context the scheduler ended on purpose.
+func (q *aworld) endedByScheduler(tag string) bool {
+	var opID, idx int
+	if n, _ := fmt.Sscanf(tag, "op%d.%d", &opID, &idx); n != 2 || opID < 1 || opID > len(q.ops) {
+		return false
+	}
+	o := q.ops[opID-1]
+	return o.itemEnded != nil && idx >= 0 && idx < len(o.itemEnded) && o.itemEnded[idx]
 }
 
 // storedIdent reports whether the channel log holds a record of exactly this logical send.
